@@ -649,11 +649,13 @@ func (e *enc) appendBuiltin(st *State, c *ssa.CallCommon) string {
 			return fmt.Sprintf("(select %s (elem (sarr %s) (+ (soff %s) %s)))", e.heapAt(st, es, sliceArr(a1)), src, src, i)
 		}
 		// in place: only the k cells after the old length change
-		e.assert(fmt.Sprintf("(=> %s (forall ((r Ref)) (! (= (select %s r) (ite (and ((_ is elem) r) (= (ebase r) (sarr %s)) (<= (+ (soff %s) (slen %s)) (eidx r)) (< (eidx r) (+ (soff %s) %s))) %s (select %s r))) :pattern ((select %s r)))))",
-			fits, nw, s, s, s, s, n, srcAt(fmt.Sprintf("(- (eidx r) (soff %s) (slen %s))", s, s)), old, nw))
+		e.elemUpdate(fits, nw, old,
+			fmt.Sprintf("(and (= qb (sarr %s)) (<= (+ (soff %s) (slen %s)) qi) (< qi (+ (soff %s) %s)))", s, s, s, s, n),
+			srcAt(fmt.Sprintf("(- qi (soff %s) (slen %s))", s, s)))
 		// reallocated: the new array holds the old elements followed by the appended ones
-		e.assert(fmt.Sprintf("(=> (not %s) (forall ((r Ref)) (! (= (select %s r) (ite (and ((_ is elem) r) (= (ebase r) %s) (<= 0 (eidx r)) (< (eidx r) %s)) (ite (< (eidx r) (slen %s)) (select %s (elem (sarr %s) (+ (soff %s) (eidx r)))) %s) (select %s r))) :pattern ((select %s r)))))",
-			fits, nw, narr, n, s, old, s, s, srcAt(fmt.Sprintf("(- (eidx r) (slen %s))", s)), old, nw))
+		e.elemUpdate(not(fits), nw, old,
+			fmt.Sprintf("(and (= qb %s) (<= 0 qi) (< qi %s))", narr, n),
+			fmt.Sprintf("(ite (< qi (slen %s)) (select %s (elem (sarr %s) (+ (soff %s) qi))) %s)", s, old, s, s, srcAt(fmt.Sprintf("(- qi (slen %s))", s))))
 		e.setHeap(st, es, old, nw, heapUpd{elems: true})
 		// ground instances for the first and last appended cell (consequences of the two axioms
 		// above; they give quantified specifications a term to trigger on)
@@ -683,12 +685,11 @@ func (e *enc) copyBuiltin(st *State, c *ssa.CallCommon) string {
 	if isHeapScalar(es) {
 		old := e.heap(st, es)
 		nw := e.fresh("Mem_"+sortKey(es)+"_cp", "(Array Ref "+es+")")
-		srcVal := fmt.Sprintf("(select %s (elem (sarr %s) (+ (soff %s) (- (eidx r) (soff %s)))))", e.heapAt(st, es, sliceArr(src)), src, src, dst)
+		srcVal := fmt.Sprintf("(select %s (elem (sarr %s) (+ (soff %s) (- qi (soff %s)))))", e.heapAt(st, es, sliceArr(src)), src, src, dst)
 		if srcIsStr {
-			srcVal = fmt.Sprintf("(strat %s (- (eidx r) (soff %s)))", src, dst)
+			srcVal = fmt.Sprintf("(strat %s (- qi (soff %s)))", src, dst)
 		}
-		e.assert(fmt.Sprintf("(forall ((r Ref)) (! (= (select %s r) (ite (and ((_ is elem) r) (= (ebase r) (sarr %s)) (<= (soff %s) (eidx r)) (< (eidx r) (+ (soff %s) %s))) %s (select %s r))) :pattern ((select %s r))))",
-			nw, dst, dst, dst, n, srcVal, old, nw))
+		e.elemUpdate("true", nw, old, fmt.Sprintf("(and (= qb (sarr %s)) (<= (soff %s) qi) (< qi (+ (soff %s) %s)))", dst, dst, dst, n), srcVal)
 		e.setHeap(st, es, old, nw, heapUpd{elems: true})
 	} else {
 		ms := newModSet()
@@ -816,6 +817,16 @@ func (e *enc) tryEvalBool(x SExpr, env *Env, what string) (res string, ok bool) 
 		}
 	}()
 	return e.evalBool(x, env, what), true
+}
+
+// elemUpdate axiomatises nw as old updated on element cells: for element addresses (elem qb qi)
+// satisfying cond, the new value is val (both over qb, qi); every other cell is unchanged. The
+// triggers mention (elem qb qi) explicitly, so no index terms are invented for non-element refs.
+func (e *enc) elemUpdate(guard, nw, old, cond, val string) {
+	a1 := fmt.Sprintf("(forall ((qb Ref) (qi Int)) (! (= (select %s (elem qb qi)) (ite %s %s (select %s (elem qb qi)))) :pattern ((select %s (elem qb qi)))))", nw, cond, val, old, nw)
+	a2 := fmt.Sprintf("(forall ((r Ref)) (! (=> (not ((_ is elem) r)) (= (select %s r) (select %s r))) :pattern ((select %s r))))", nw, old, nw)
+	e.assert(implies(guard, a1))
+	e.assert(implies(guard, a2))
 }
 
 // sliceArr extracts the backing-array term of a syntactic (mkslice arr off len cap) term.
